@@ -13,6 +13,8 @@ for f in sorted(glob.glob('/tmp/mv/results/*.json')):
         continue
     pid, m = mid.split('-')
     src = '/tmp/mut/%s/_out/%s' % (pid, m)
+    if not os.path.exists(src + '/patch.diff'):
+        continue      # (filed in an earlier run; its scratch directory is gone)
     dst = '/verif/seeded/%s' % mid
     os.makedirs(dst, exist_ok=True)
     patch = src + '/patch.diff'
